@@ -148,7 +148,7 @@ fn exec_mutants(t: &mut Tape, st: &mut Stats) -> Result<(), String> {
         stop_on_boundary: t.bool(),
         follow: t.below(3) as u8,
     };
-    let nm = t.range(1, 4);
+    let nm = t.range(0, 4);
     let mut kinds = vec![];
     for _ in 0..nm {
         let len = server.len();
@@ -421,7 +421,7 @@ pub static DEF: PropDef = PropDef {
 after a complete status line (100, 403, 200), after a complete Location line; chunked body at a size line, inside chunk data, after the \
 last-chunk line (on a redirect with an unresolvable Location), after 14 hex digits of a size line; length-delimited body - each followed by EVERY string of length 0..6 \
 (thorough 0..7) over a 10-symbol protocol alphabet for that state (e.g. '0 1 a F ; CR LF SP x 0xFF'), offered one-shot and byte by \
-byte with 1..2-byte output buffers. random 'mutants': a valid exchange from C01's generator with 1..4 grammar-aware mutations (bit flip, \
+byte with 1..2-byte output buffers. random 'mutants': a valid exchange from C01's generator with 0..4 grammar-aware mutations (bit flip, \
 deletion, duplication, splice from a second exchange, token insertion at line starts - CRLF, lone CR / LF, 18 hex digits, Connection: \
 close, interim 100, bad Content-Length, unresolvable Location, NUL -, truncation, 100..140 extra fields, 64 KiB field names / values, \
 oversize numbers, one field line repeated 2..12 times, CRLF turned into bare LF, 1..8 interim responses with or without fields in front), the request configuration of that exchange, a random arrival / buffer schedule. enumeration 'five': all five \
